@@ -227,3 +227,131 @@ def diff_const(a, b):
         return None
     d = a - b
     return d.c if d.is_const() else None
+
+
+# ---------------------------------------------------------------------------
+# thorough-tier grammar analyses (fixpoints over the production structure)
+
+def _parse(b, s, g):
+    """statement -> Op | Call | None, re-using the builder's collected items"""
+    for it in b.items:
+        if it.node is s:
+            return it
+    return None
+
+
+def production_paths(g, fname, max_paths=64):
+    """all live item sequences of a builder, one per path through its (constant-
+    propagated) control flow up to a `return`; loops contribute their body once
+    (marked), unknown tests fork.  -> list of (conds, [items])"""
+    b = g.builders[fname]
+    lv = g.liveness
+    out = []
+
+    def walk(stmts, items, conds):
+        for i, s in enumerate(stmts):
+            if id(s) in lv.dead_nodes:
+                continue
+            it = _parse(b, s, g)
+            if it is not None:
+                items = items + [it]
+                continue
+            if isinstance(s, ast.Return):
+                out.append((conds, items))
+                return None
+            if isinstance(s, ast.Raise):
+                return None
+            if isinstance(s, ast.If):
+                env, dn = lv.env_of(fname)
+                from .constprop import ev_const, UNKNOWN
+                v = ev_const(s.test, env, dn, lv.lit)
+                rest = stmts[i + 1:]
+                if v is UNKNOWN:
+                    for branch, tag in ((s.body, True), (s.orelse, False)):
+                        r = walk(list(branch) + list(rest), items, conds + ((s, tag),))
+                    return None
+                branch = s.body if v else s.orelse
+                return walk(list(branch) + list(rest), items, conds)
+            if isinstance(s, (ast.For, ast.While)):
+                inner = []
+                for x in ast.walk(s):
+                    pass
+                # loop body once, flagged
+                body_items = []
+                for st in s.body:
+                    bi = _parse(b, st, g)
+                    if bi is not None:
+                        body_items.append(bi)
+                    elif isinstance(st, ast.If):
+                        for st2 in st.body:
+                            bi2 = _parse(b, st2, g)
+                            if bi2 is not None:
+                                body_items.append(bi2)
+                if body_items:
+                    items = items + [("loop", s, body_items)]
+                continue
+        out.append((conds, items))
+        return None
+    walk(list(b.fn.body), [], ())
+    # forks on tests that guard no item give identical item lists: keep one of each
+    seen, uniq = set(), []
+    for conds, items in out:
+        k = tuple(id(x) if not isinstance(x, tuple) else ("loop", id(x[1])) for x in items)
+        if k not in seen:
+            seen.add(k)
+            uniq.append((conds, items))
+    return uniq[:max_paths]
+
+
+def ends_at_origin(g):
+    """builder -> True if every live production ends (ignoring trailing Discard*
+    operations) with the quartet reversing step [1, 0] or with an unshifted call
+    to a builder that does; None = not decided"""
+    res = {f: True for f in g.builders if g.builders[f].live}
+    why = {}
+    changed = True
+    rounds = 0
+    while changed and rounds < 10:
+        changed = False
+        rounds += 1
+        for f in list(res):
+            ok = True
+            for conds, items in production_paths(g, f):
+                tail = [x for x in items]
+                while tail and not isinstance(tail[-1], tuple) and tail[-1].kind == "op" and tail[-1].type.startswith("Discard") \
+                        and not tail[-1].type.startswith("Discard_Forward"):
+                    tail = tail[:-1]
+                if not tail:
+                    ok, why[f] = None, "empty production"
+                    break
+                last = tail[-1]
+                if isinstance(last, tuple):
+                    # a loop at the end: periodic read loop; its body must end at the loop position 0 on the last iteration
+                    body = last[2]
+                    lc = [x for x in body if x.kind == "call"]
+                    if lc and res.get(lc[-1].callee) is True:
+                        continue
+                    ok, why[f] = None, "production ends with a loop"
+                    break
+                if last.kind == "call":
+                    sh = lin_of(last.shift) if last.shift is not None else Lin.const(0)
+                    if res.get(last.callee) is True and sh is not None and sh.is_const() and sh.c == 0:
+                        continue
+                    if res.get(last.callee) is True and sh is not None:
+                        ok, why[f] = False, f"last inserted sequence {last!r} is shifted by {sh}"
+                        break
+                    ok, why[f] = res.get(last.callee), f"last item {last!r}"
+                    break
+                # op: must be Discard_Forward k preceded by Backward [1,0]
+                if last.type.startswith("Discard_Forward") and len(tail) >= 2 and tail[-2].kind == "op" and tail[-2].type == "Backward":
+                    a, z = tail[-2].span()
+                    if z is not None and z.is_const() and z.c == 0 and a is not None and a.is_const() and a.c == 1:
+                        continue
+                    ok, why[f] = False, f"last Backward is {tail[-2]!r}, not [1, 0]"
+                    break
+                ok, why[f] = None, f"production ends with {last!r}"
+                break
+            if res[f] is not ok:
+                res[f] = ok
+                changed = True
+    return res, why
